@@ -68,6 +68,19 @@ add("C11", "exploration",
     "exhaustive enumeration of a boundary coordinate alphabet x box configurations with a query-counting probe backend",
     "DESIGN.md 2/C11", "E1+E2")
 
+add("C05", "model_checking",
+    "Explicit exploration of the conversion graph on the real constructors: every ordered pair of layouts for every extent vector up to the bound (both the copying and the moving form), every conversion sequence up to length 3 from the source compared with the directly converted field, "
+    "and whole-stack affine<I<L<array>>> conversions; oracles are extents, documented storage length, value at every lattice coordinate, byte-identical round trip, unchanged source, bit-identical affine configuration.",
+    "size_t coordinates; CUDA only through C13's shim build; M in {1,3}",
+    "explicit-state exploration of conversion sequences (states = layouts x contents, transitions = real conversions), all executed on the implementation",
+    "DESIGN.md 2/C05", "E1+E3")
+add("C12", "model_checking",
+    "Explicit-state breadth-first search to fixpoint over operation histories (construct, write, copy/move construct, copy/move assign incl. self, convert, dump+load, destroy) on a pool of 2-4 slots and up to four field types; states are histories replayed on fresh objects and merged by a canonical form that keeps everything the property can observe; "
+    "after every operation all live fields are compared with a plain array model, buffer aliasing is checked directly, and an allocation ledger / ASan+LSan judge leaks, double frees and use after free; an unmerged run of all short histories cross-checks the canonicalisation.",
+    "small extents (<= 2 cells) and values 0..2; slots interchangeable; moved-from fields only assigned to or destroyed",
+    "explicit-state BFS over operation histories with canonical-state de-duplication, every transition executed on the implementation against a reference model",
+    "DESIGN.md 2/C12", "E1+E3+E8")
+
 def main():
     props = [json.loads(l) for l in open(os.path.join(V, "properties.jsonl"))]
     checks, na = [], []
